@@ -127,8 +127,7 @@ theorem exec_congr (c : List Level) (D1 D2 : Dispatch) (href : D1.ref = D2.ref) 
     | cons n rest =>
       have hn : namesN n ⊆ usedNames c := fun a ha => hsub (by simp [namesL, ha])
       have hr : namesL rest ⊆ usedNames c := fun a ha => hsub (by simp [namesL, ha])
-      simp only [exec]
-      rw [ih env rest hr]
+      rw [exec_cons, exec_cons, ih env rest hr]
       congr 1
       have hinv := invoke_congr c (exec c D1 f) (exec c D2 f) (fun env kids hk => ih env kids hk)
       cases n with
